@@ -105,7 +105,9 @@ def parse_stderr(text):
             if ("at the end of the function body" in line or "at this exit" in line) and cur.get("_last_num") and not cur.get("fn_line"):
                 cur["fn_line"] = cur["_last_num"]
             # a failed precondition is reported AT the call; the clause is the secondary span
-            if "failed precondition" in line and cur.get("_last_num") and not cur.get("clause_line"):
+            if ("failed precondition" in line or "failed this invariant" in line or "failed this postcondition" in line) and cur.get("_last_num") and not cur.get("clause_line"):
+                # (the clause that failed, wherever the error itself is reported: at the call, at a
+                # `continue`, at an exit)
                 cur["clause_line"] = cur["_last_num"]
     for e in out:
         e["text"] = "\n".join(e["text"])[:3000]
